@@ -26,6 +26,7 @@ import (
 	"verif/mcx"
 	"verif/vrt"
 	"verif/worlds/track"
+	"verif/worlds/tcpw"
 	"verif/worlds/udpw"
 )
 
@@ -79,6 +80,7 @@ type cfg struct {
 	Preempt    int
 	CON        bool // notifications are confirmable
 	DeregFails bool // the peer never answers the deregistration request: Cancel ends with its (virtual) deadline
+	TCP        bool // the same notification streams on a real tcp/client.Conn (Session.Run read loop over an in-memory stream)
 	Conc       bool // every received message is processed in its own thread (exported ProcessReceivedMessage option); notifications injected back to back
 }
 
@@ -86,6 +88,9 @@ func (c cfg) String() string {
 	d := ""
 	if c.DeregFails {
 		d = " deregistration-unanswered"
+	}
+	if c.TCP {
+		d += " transport=tcp"
 	}
 	return fmt.Sprintf("observe reg=%s depth=%d two=%v con-notifications=%v concurrent-processing=%v preempt<=%d%s", c.Reg, c.Depth, c.Two, c.CON, c.Conc, c.Preempt, d)
 }
@@ -127,7 +132,58 @@ func scenario(c cfg) *mcx.Scenario {
 						vrt.Lib("process-msg", func() { cc.ProcessReceivedMessageWithHandler(req, h) })
 					}
 				}
-				w := udpw.New(uo)
+				type worldT struct {
+					observe func(ctx context.Context, path string, cb func(*pool.Message)) (func(context.Context) error, error)
+					inject  func(m message.Message) error
+					outs    func() []message.Message
+					peerMID func() int32
+					tick    func()
+				}
+				var w worldT
+				if c.TCP {
+					tw := tcpw.New(tcpw.Opts{LimitTotal: 8, LimitEndpoint: 8, QueueSize: 4, DisableCSM: true})
+					pm := int32(0)
+					w = worldT{
+						observe: func(ctx context.Context, path string, cb func(*pool.Message)) (func(context.Context) error, error) {
+							o, err := tw.CC.Observe(ctx, path, cb)
+							if err != nil {
+								return nil, err
+							}
+							return func(ctx context.Context) error { return o.Cancel(ctx) }, nil
+						},
+						inject: func(m message.Message) error { m.Type, m.MessageID = 0, 0; tw.Inject(m); return nil },
+						outs: func() []message.Message {
+							ms := tw.NewOuts()
+							for i := range ms {
+								ms[i].Type = message.NonConfirmable
+							}
+							return ms
+						},
+						peerMID: func() int32 { pm++; return pm },
+						tick:    func() { tw.CC.CheckExpirations(vrt.Now()) },
+					}
+				} else {
+					uw := udpw.New(uo)
+					w = worldT{
+						observe: func(ctx context.Context, path string, cb func(*pool.Message)) (func(context.Context) error, error) {
+							o, err := uw.CC.Observe(ctx, path, cb)
+							if err != nil {
+								return nil, err
+							}
+							return func(ctx context.Context) error { return o.Cancel(ctx) }, nil
+						},
+						inject: uw.Inject,
+						outs: func() []message.Message {
+							var ms []message.Message
+							for _, o := range uw.NewOuts() {
+								ms = append(ms, o.M)
+							}
+							return ms
+						},
+						peerMID: uw.PeerMID,
+						tick:    func() { uw.CC.CheckExpirations(vrt.Now()) },
+					}
+				}
 				ctxs := make([]context.CancelFunc, nobs)
 				for i := range obs {
 					i := i
@@ -135,7 +191,7 @@ func scenario(c cfg) *mcx.Scenario {
 					ctx, cancel := context.WithCancel(context.Background())
 					ctxs[i] = cancel
 					vrt.App(fmt.Sprintf("observer%d", i), func() {
-						o, err := w.CC.Observe(ctx, fmt.Sprintf("/obs%d", i), func(n *pool.Message) {
+						ocancel, err := w.observe(ctx, fmt.Sprintf("/obs%d", i), func(n *pool.Message) {
 							track.Hold(n, "notification inside a callback")
 							defer track.Unhold(n)
 							b, _ := n.ReadBody()
@@ -150,7 +206,7 @@ func scenario(c cfg) *mcx.Scenario {
 						if c.DeregFails {
 							cctx, ccancel = vrt.WithTimeout(context.Background(), 5*time.Second)
 						}
-						obs[i].cancelErr = o.Cancel(cctx)
+						obs[i].cancelErr = ocancel(cctx)
 						ccancel()
 						obs[i].cancelDone = true
 					})
@@ -217,7 +273,8 @@ func scenario(c cfg) *mcx.Scenario {
 				deregSeen := make([]bool, nobs)
 				cancelsIssued := 0
 				serve := func() {
-					for _, o := range w.NewOuts() {
+					for _, om := range w.outs() {
+						o := struct{ M message.Message }{om}
 						if o.M.Code != codes.GET {
 							continue
 						}
@@ -241,7 +298,7 @@ func scenario(c cfg) *mcx.Scenario {
 							continue
 						}
 						ackOrNon := func(code codes.Code, withObs bool, v uint32, isReg bool) message.Message {
-							typ, mid := message.NonConfirmable, w.PeerMID()
+							typ, mid := message.NonConfirmable, w.peerMID()
 							if o.M.Type == message.Confirmable {
 								typ, mid = message.Acknowledgement, o.M.MessageID
 							}
@@ -251,16 +308,16 @@ func scenario(c cfg) *mcx.Scenario {
 							regAnswered[idx] = true
 							switch c.Reg {
 							case "205obs":
-								_ = w.Inject(ackOrNon(codes.Content, true, 1, true))
+								_ = w.inject(ackOrNon(codes.Content, true, 1, true))
 							case "203obs":
-								_ = w.Inject(ackOrNon(codes.Valid, true, 1, true))
+								_ = w.inject(ackOrNon(codes.Valid, true, 1, true))
 							case "205":
-								_ = w.Inject(ackOrNon(codes.Content, false, 0, true))
+								_ = w.inject(ackOrNon(codes.Content, false, 0, true))
 							case "404":
-								_ = w.Inject(ackOrNon(codes.NotFound, false, 0, true))
+								_ = w.inject(ackOrNon(codes.NotFound, false, 0, true))
 							case "none":
 								if o.M.Type == message.Confirmable {
-									_ = w.Inject(message.Message{Type: message.Acknowledgement, Code: codes.Empty, MessageID: o.M.MessageID})
+									_ = w.inject(message.Message{Type: message.Acknowledgement, Code: codes.Empty, MessageID: o.M.MessageID})
 								}
 								ctxs[idx]() // the caller gives up
 							}
@@ -269,7 +326,7 @@ func scenario(c cfg) *mcx.Scenario {
 						if ov == 1 && !deregSeen[idx] {
 							deregSeen[idx] = true
 							if !c.DeregFails {
-								_ = w.Inject(ackOrNon(codes.Content, false, 0, true))
+								_ = w.inject(ackOrNon(codes.Content, false, 0, true))
 							}
 						}
 					}
@@ -321,11 +378,11 @@ func scenario(c cfg) *mcx.Scenario {
 						if c.CON {
 							typ = message.Confirmable
 						}
-						_ = w.Inject(mkNote(e.i, obs[e.i].token, typ, w.PeerMID(), codes.Content, true, e.v, false))
+						_ = w.inject(mkNote(e.i, obs[e.i].token, typ, w.peerMID(), codes.Content, true, e.v, false))
 						if c.Conc {
 							// a duplicate (same sequence number, same instant) right behind it, processed concurrently
 							hist = append(hist, fmt.Sprintf("dup%d(seq=%d)", e.i, e.v))
-							_ = w.Inject(mkNote(e.i, obs[e.i].token, typ, w.PeerMID(), codes.Content, true, e.v, false))
+							_ = w.inject(mkNote(e.i, obs[e.i].token, typ, w.peerMID(), codes.Content, true, e.v, false))
 						}
 					case "cancel":
 						hist = append(hist, fmt.Sprintf("cancel%d", e.i))
@@ -336,7 +393,7 @@ func scenario(c cfg) *mcx.Scenario {
 							vrt.Quiesce("peer: deregistration on the wire")
 							serve()
 							vrt.Advance(6 * time.Second)
-							w.CC.CheckExpirations(vrt.Now())
+							w.tick()
 							vrt.Quiesce("peer: cancel returned")
 							if !obs[e.i].cancelDone {
 								fail("cancel-did-not-return", "Cancel has not returned 1 s after its deadline")
@@ -363,7 +420,7 @@ func scenario(c cfg) *mcx.Scenario {
 					serve()
 					if c.DeregFails && k == 1 {
 						vrt.Advance(6 * time.Second) // the final Cancel is not answered either: its deadline ends it
-						w.CC.CheckExpirations(vrt.Now())
+						w.tick()
 					}
 				}
 				account()
@@ -404,6 +461,13 @@ func main() {
 	scs = append(scs, scenario(cfg{Reg: "205obs", Depth: ev.Pick(r, 2, 3), Two: true}))
 	scs = append(scs, scenario(cfg{Reg: "205obs", Depth: ev.Pick(r, 2, 3), DeregFails: true}))
 	scs = append(scs, scenario(cfg{Reg: "205obs", Depth: 2, DeregFails: true, CON: true}))
+	// the same streams over a tcp connection (same observation handler, other conn code)
+	scs = append(scs, scenario(cfg{Reg: "205obs", Depth: ev.Pick(r, 2, 3), TCP: true}))
+	scs = append(scs, scenario(cfg{Reg: "205obs", Depth: 2, Two: true, TCP: true}))
+	scs = append(scs, scenario(cfg{Reg: "205obs", Depth: 2, DeregFails: true, TCP: true}))
+	for _, reg := range []string{"205", "404", "none"} {
+		scs = append(scs, scenario(cfg{Reg: reg, Depth: 1, TCP: true}))
+	}
 	scs = append(scs, scenario(cfg{Reg: "205obs", Depth: 2, Preempt: 1}))
 	scs = append(scs, scenario(cfg{Reg: "205obs", Depth: 1, Conc: true, Preempt: map[bool]int{true: 1, false: ev.Pick(r, 2, 3)}[r.Lite()]}))
 	sum := mcx.Explore(r, scs, mcx.Config{Wall: ev.Pick(r, 4*time.Minute, 30*time.Minute)})
